@@ -648,6 +648,78 @@ func s8() {
 	k.check()
 	vrt.Observe("kind=%s concurrent=%v rmErr=%v recv=%d", kind.name, concurrent, rmErr != nil, len(x.received))
 }
+// S9: AddHandler (callback consumer behind an internal queue) || frames ||
+// RemoveHandler / Close: every frame delivered before the removal reaches the
+// callback once, in order; the closer runs exactly once; the internal
+// goroutine ends.
+func s9() {
+	a, b := vnet.NewPair("ep", "peer")
+	ep := net.NewEndPoint(a)
+	var got []uint32
+	closerCalls := 0
+	afterEnd := 0
+	ended := false
+	id := ep.AddHandler(func(h *net.Header) (bool, bool) { return true, true },
+		func(m *net.Message) error {
+			if ended {
+				afterEnd++
+			}
+			got = append(got, m.Header.ID)
+			checkIntact("corrupt/callback", []*net.Message{m})
+			return nil
+		},
+		func(err error) { closerCalls++ })
+	k := register(ep, "keep", matchAllKeep, true)
+	how := vrt.ChooseFree(2, "remove-or-close")
+	vrt.Explore()
+	w1 := vrt.GoWorker("peer", func() {
+		m1, m2, m3 := frame(1, 2), frame(2, 0), frame(3, 5)
+		m1.Write(b)
+		m2.Write(b)
+		m3.Write(b)
+	})
+	var rmErr error
+	w2 := vrt.GoWorker("ender", func() {
+		if how == 0 {
+			rmErr = ep.RemoveHandler(id)
+		} else {
+			ep.Close()
+		}
+	})
+	vrt.Quiesce()
+	ended = true
+	workersDone(w1, w2)
+	if closerCalls != 1 {
+		vrt.Failf("closer-count/callback", "the closer of the AddHandler handler ran %d times", closerCalls)
+	}
+	for i, v := range got {
+		if v != uint32(i+1) {
+			vrt.Failf("callback-order", "the callback consumer received %v, the frames were sent as [1 2 3]", got)
+			break
+		}
+	}
+	if how == 0 && rmErr != nil {
+		vrt.Failf("live-handler-not-removable/callback", "RemoveHandler of the AddHandler handler failed: %v", rmErr)
+	}
+	if how == 0 && len(got) < len(k.received) {
+		// frames delivered to the other handler after the removal are fine;
+		// before the removal both got them
+		vrt.Flag("removed-during-traffic")
+	}
+	ep.Close()
+	vrt.Quiesce()
+	if closerCalls != 1 {
+		vrt.Failf("closer-twice/callback", "the closer of the AddHandler handler ran %d times after shutdown", closerCalls)
+	}
+	if afterEnd > 0 && how == 1 {
+		vrt.Flag("callback-after-close") // buffered frames are drained by the internal goroutine
+	}
+	for _, t := range vrt.LockWaiters() {
+		vrt.Failf("deadlock/"+t.Kind, "thread %s blocked on %s at quiescence", t.Thread, t.Label)
+	}
+	k.check()
+	vrt.Observe("how=%d got=%d closer=%d", how, len(got), closerCalls)
+}
 
 func init() {
 	add := func(name string, body func(), q, t int, doc string, must ...string) {
@@ -666,5 +738,6 @@ func init() {
 	add("s7b-full-queue-call-remove-close", s7(true), 2, 4, "same || Close()", "consumer-blocked-answered")
 	add("s7c-blocked-reply-then-close", s7c, 1, 3, "a Call for a full queue is answered on a synchronous pipe nobody reads; then Close()")
 	add("s8-filter-answers", s8, 1, 3, "every filter answer (matched x keep, including self-removal without consuming) on two frames, RemoveHandler after or during the traffic, then Close()")
+	add("s9-addhandler-callback", s9, 1, 3, "AddHandler (callback consumer) || three frames || RemoveHandler or Close(): callback order, closer exactly once")
 	add("s6-receiveany-close", s6, 2, 99, "ReceiveAny || two frames || Close()")
 }
